@@ -1354,7 +1354,7 @@ func main() {
 	}
 	results := make([]*result, nworlds)
 	var wg sync.WaitGroup
-	sem := make(chan struct{}, 6)
+	sem := make(chan struct{}, 4)
 	for i := 0; i < nworlds; i++ {
 		wg.Add(1)
 		sem <- struct{}{}
